@@ -1745,6 +1745,125 @@ theorem selection_program (names : List Bytes) (recs : List Rec) (hv : ∀ r ∈
   have := rep_chunk [] recs [] (encodeAll recs) (by simp)
   simpa using this
 
+/-! ### several tables alive at once -/
+
+/-- table `i` represents the record list `cs[i]` (all of them valid) -/
+def TInv (names : List Bytes) (ts : List Ext) (cs : List (List Rec)) : Prop :=
+  ts.length = cs.length ∧ ∀ (i : Nat) (e : Ext) (c : List Rec), ts[i]? = some e → cs[i]? = some c → ExtInv e c ∧ ∀ r ∈ c, valid names.length r = true
+
+theorem runTree_spec (names : List Bytes) (prog : List TStep) : ∀ (ts : List Ext) (cs : List (List Rec)), TInv names ts cs →
+    treeOK (cs.map List.length) prog = true → runTree names ts prog = specTree names cs prog := by
+  induction prog with
+  | nil => intro ts cs _ _; rfl
+  | cons st p ih =>
+    intro ts cs hinv hok
+    obtain ⟨hlen, hall⟩ := hinv
+    cases st with
+    | sel src idx =>
+      simp only [treeOK, List.getElem?_map, Bool.and_eq_true] at hok
+      cases hc : cs[src]? with
+      | none => simp [hc] at hok
+      | some c =>
+        have hsrc : src < ts.length := by
+          rw [hlen]
+          rcases Nat.lt_or_ge src cs.length with h | h
+          · exact h
+          · rw [List.getElem?_eq_none h] at hc; cases hc
+        obtain ⟨e, he⟩ : ∃ e, ts[src]? = some e := ⟨ts[src], List.getElem?_eq_getElem hsrc⟩
+        obtain ⟨hE, hV⟩ := hall src e c he hc
+        simp only [hc, Option.map_some, List.all_eq_true, decide_eq_true_eq] at hok
+        simp only [runTree, specTree, he, hc]
+        apply ih
+        · refine ⟨by simp [hlen], ?_⟩
+          intro i e' c' he' hc'
+          by_cases hi : i < ts.length
+          · rw [List.getElem?_append_left hi] at he'
+            rw [List.getElem?_append_left (by rw [← hlen]; exact hi)] at hc'
+            exact hall i e' c' he' hc'
+          · have hi' : i = ts.length := by
+              have : i < (ts ++ [e.getitem idx]).length := by
+                rcases Nat.lt_or_ge i (ts ++ [e.getitem idx]).length with h | h
+                · exact h
+                · rw [List.getElem?_eq_none h] at he'; cases he'
+              simp at this; omega
+            subst hi'
+            rw [List.getElem?_append_right (Nat.le_refl _)] at he'
+            rw [List.getElem?_append_right (by rw [hlen]; exact Nat.le_refl _)] at hc'
+            simp only [Nat.sub_self, List.getElem?_cons_zero, Option.some.injEq, hlen] at he' hc'
+            subst he' hc'
+            refine ⟨⟨rep_select hE.1 idx hok.1, by intro h; simp [Ext.getitem] at h⟩, ?_⟩
+            intro r hr
+            simp only [List.mem_filterMap] at hr
+            obtain ⟨j, _, hj⟩ := hr
+            exact hV r (List.mem_of_getElem? hj)
+        · simp only [List.map_append, List.map_cons, List.map_nil, filterMap_getElem?_length c idx hok.1]
+          exact hok.2
+    | write i =>
+      simp only [treeOK, List.length_map, Bool.and_eq_true, decide_eq_true_eq] at hok
+      have hi : i < ts.length := by rw [hlen]; exact hok.1
+      obtain ⟨e, he⟩ : ∃ e, ts[i]? = some e := ⟨ts[i], List.getElem?_eq_getElem hi⟩
+      obtain ⟨c, hc⟩ : ∃ c, cs[i]? = some c := ⟨cs[i], List.getElem?_eq_getElem hok.1⟩
+      obtain ⟨hE, hV⟩ := hall i e c he hc
+      obtain ⟨hinv', hdata⟩ := compact_inv e c hE
+      simp only [runTree, specTree, he, hc, hdata]
+      congr 1
+      apply ih _ cs _ hok.2
+      refine ⟨by simp [hlen], ?_⟩
+      intro j e' c' he' hc'
+      by_cases hj : j = i
+      · subst hj
+        rw [List.getElem?_set_self hi] at he'
+        rw [hc] at hc'
+        cases he'; cases hc'
+        exact ⟨hinv', hV⟩
+      · rw [List.getElem?_set_ne (fun h => hj h.symm)] at he'
+        exact hall j e' c' he' hc'
+    | fields i =>
+      simp only [treeOK, List.length_map, Bool.and_eq_true, decide_eq_true_eq] at hok
+      have hi : i < ts.length := by rw [hlen]; exact hok.1
+      obtain ⟨e, he⟩ : ∃ e, ts[i]? = some e := ⟨ts[i], List.getElem?_eq_getElem hi⟩
+      obtain ⟨c, hc⟩ : ∃ c, cs[i]? = some c := ⟨cs[i], List.getElem?_eq_getElem hok.1⟩
+      obtain ⟨hE, hV⟩ := hall i e c he hc
+      simp only [runTree, specTree, he, hc, Ext.records, rep_records hE.1 names hV]
+      congr 1
+      exact ih ts cs ⟨hlen, hall⟩ hok.2
+
+/-- **tables that share a parent**: selections keep the table they were taken from; whatever is selected from, written or
+read — the parent after a child was written, a child after the parent was written, siblings in any order — every write is the
+encoding of that table's records and every read their views. Writing one table never disturbs another. -/
+theorem tree_program (names : List Bytes) (recs : List Rec) (hv : ∀ r ∈ recs, valid names.length r = true)
+    (prog : List TStep) (hok : treeOK [recs.length] prog = true) :
+    runTree names [Ext.ofChunk (addNewline (encodeAll recs))] prog = specTree names [recs] prog := by
+  apply runTree_spec names prog _ [recs] _ (by simpa using hok)
+  refine ⟨rfl, ?_⟩
+  intro i e c he hc
+  cases i with
+  | zero =>
+    simp only [List.getElem?_cons_zero, Option.some.injEq] at he hc
+    subst he hc
+    refine ⟨?_, hv⟩
+    -- the table read from the file (as in `selection_program`)
+    obtain ⟨tail, ht, hcq⟩ : ∃ tail, Stops tail ∧ addNewline (encodeAll recs) = encodeAll recs ++ tail := by
+      unfold addNewline
+      split
+      · exact ⟨[], stops_nil, by simp⟩
+      · exact ⟨[10], stops_newline, rfl⟩
+    have hlen : recs.length + 2 ≤ (encodeAll recs ++ tail).length + 2 := by
+      have := length_le_encodeAll recs
+      simp; omega
+    have hfs : findStarts (encodeAll recs ++ tail) = bounds 0 recs := by
+      have := findStarts_chain names.length tail ht recs [] _ hv hlen
+      simpa [findStarts] using this
+    rw [hcq]
+    unfold Ext.ofChunk
+    simp only [hfs, bounds_getLast, bounds_dropLast, Option.getD_some, Nat.zero_add]
+    have htake : (encodeAll recs ++ tail).take (encodeAll recs).length = encodeAll recs := by simp
+    rw [htake]
+    refine ⟨?_, fun _ => rfl⟩
+    have := rep_chunk [] recs [] (encodeAll recs) (by simp)
+    simpa using this
+  | succ i => simp at he
+
 /-! ### non-vacuity: the hypotheses are satisfiable by non-trivial values -/
 
 def exNames : List Bytes := [[99, 104, 114, 49], [99, 104, 114, 88]]
@@ -1791,6 +1910,11 @@ example : (decodeChunk false false exNames ((encodeAll [exR1, exR2, exR3]).take 
 example : progOK 3 [.select [2, 0, 2], .write, .select [1, 2], .fields, .write] = true := by decide
 example : runProg exNames (Ext.ofChunk (addNewline (encodeAll [exR1, exR2, exR3]))) [.select [2, 0, 2], .write, .select [1, 2], .fields, .write]
     = [.written (encodeAll [exR3, exR1, exR3]), .read [view exNames exR1, view exNames exR3], .written (encodeAll [exR1, exR3])] := by
+  decide +kernel
+
+example : treeOK [3] [.sel 0 [1, 2], .write 1, .fields 0, .sel 0 [0, 2], .write 2, .write 0] = true := by decide
+example : runTree exNames [Ext.ofChunk (addNewline (encodeAll [exR1, exR2, exR3]))] [.sel 0 [1, 2], .write 1, .fields 0, .sel 0 [0, 2], .write 2]
+    = [.written (encodeAll [exR2, exR3]), .read [view exNames exR1, view exNames exR2, view exNames exR3], .written (encodeAll [exR1, exR3])] := by
   decide +kernel
 
 /-- the chunk-size bound of the property is needed: with a chunk size below the largest record the
